@@ -1,6 +1,6 @@
 import Vflow.Model.Flow
 /-!
-# Model of `ipfix/decoder.go` (as it is after the F2, the padding and the F23 repairs)
+# Model of `ipfix/decoder.go` (as it is after the F2, the padding, the F23 and the F30 repairs)
 
 One small function per Go block.  Composite reads return `Except Err α × Rd` so that the reader
 position after a failure is available (the Go code uses it to compute how much of the set to skip).
@@ -91,6 +91,13 @@ def decFields : List Spec → Rd → Record → (Except Err Record × Rd)
         | none => (.error .short, r1)
         | some (b, r2) => decFields fs r2 (acc ++ [⟨fid, f.ent, interpret b t⟩])
 
+/-- the error classes the IPFIX decoder wraps in `nonfatalError{…}` (the type switches of `decodeSet` and `Decode`
+let the decoding go on): the three it shares with NetFlow v9 (`Err.nonfatal`) and, since the F30 repair,
+"failed to decodeData" — a data set for a template without fields (a template record with field count 0, which
+`decodeSet` installs like any other) is skipped by its declared length instead of making `Decode` return
+`(nil, err)` -/
+def nonfatalErr (e : Err) : Bool := e.nonfatal || e == .emptyRec
+
 /-- `decodeData` -/
 def decodeData (tr : Template) (r : Rd) : Except Err Record × Rd :=
   match decFields (tr.scope ++ tr.fields) r [] with
@@ -152,7 +159,7 @@ def setLoop (ctx : Ctx) : Nat → St → (St × Option Err × Bool)
           -- F2 repair: a record that consumed no octets ends the set with a non-fatal error
           if r'.cnt = st.r.cnt then ({ st with r := r' }, some .zeroRec, false)
           else setLoop ctx fuel { st with r := r', recs := st.recs ++ [fs] }
-        | (.error e, r') => if e.nonfatal then ({ st with r := r' }, some e, false) else ({ st with r := r' }, some e, true)
+        | (.error e, r') => if nonfatalErr e then ({ st with r := r' }, some e, false) else ({ st with r := r' }, some e, true)
     else (st, none, false)
 
 def emptyTpl : Template := ⟨0, 0, 0, [], []⟩
@@ -203,7 +210,7 @@ def outer (addr : Bytes) : Nat → St → List Err → (St × Option Err × List
     if st.r.rem.length > 4 then
       match decodeSet addr (st.r.rem.length + 1) st with
       | (st', none) => outer addr fuel st' errs
-      | (st', some e) => if e.nonfatal then outer addr fuel st' (errs ++ [e]) else (st', some e, errs)
+      | (st', some e) => if nonfatalErr e then outer addr fuel st' (errs ++ [e]) else (st', some e, errs)
     else (st, none, errs)
 
 /-- `MessageHeader.unmarshal`: Version, Length, ExportTime, SequenceNo, DomainID -/
